@@ -32,10 +32,16 @@
                                   The bound is attained (example at the end: N = M = 2, W = P = 3, 3 blocks).
     * c05_all_queued_settle_within, c05_settles_within_history   corollaries: everything queued; histories from the
                                   empty chain.
-    * c05_no_halt_partial         see the doc comment: the full "never aborts" is FALSE of the code
-                                  (`c05_counterexample_halt`); every theorem above is stated for end-blocks that do
-                                  not halt (`noHalt`), and `c05_no_halt_partial` shows that a halt can only come from
-                                  a failing bank transfer.
+    * c05_ceil_bound_counterexample   the bound WITHOUT the "+ 1", ⌈W/N⌉ + ⌈P/M⌉ (at least 1), is FALSE of the code:
+                                  two cancelled markets without bets, one participation, batch size 1 — the second
+                                  market needs 2 end-blocks, not 1 (and 2 is what `settleBound` gives: attained).
+    * c05_no_halt_partial         the full "never aborts" is FALSE of the code (`c05_counterexample_halt`); every theorem
+                                  above is stated for end-blocks that do not halt (`noHalt`). What is proved: in a
+                                  reachable state that is SOLVENT (no negative backing part, fee or promised profit; no
+                                  participation over-exposed on the declared winner) the end-block does not halt — every
+                                  look-up, status check, queue removal and bank transfer succeeds — and the state stays
+                                  solvent through the block; well-formedness of the stores is an invariant.
+    * c05_no_halt_history_partial, c05_settles_within_solvent   the whole-history forms for solvent histories.
 -/
 import SgeProofs.Lemmas.SettleBound
 import SgeProofs.Lemmas.SettleNoHaltInv
@@ -43,6 +49,50 @@ import SgeProofs.Properties.C05
 import SgeProofs.Properties.C08Index
 namespace Sge.Core
 open Sge Sge.Genesis
+
+-- ---------------------------------------------------------------------------------------------
+-- the measures, in words
+
+theorem filter_contains_cons (u : Nat) (q : List Nat) (hu : u ∉ q) : ∀ (l : List (Nat × Nat × Nat × Nat)),
+    (l.filter (fun x => (u :: q).contains x.1)).length =
+      (l.filter (fun x => x.1 == u)).length + (l.filter (fun x => q.contains x.1)).length := by
+  intro l
+  induction l with
+  | nil => rfl
+  | cons x xs ih =>
+    simp only [List.filter_cons, List.contains_cons]
+    by_cases h1 : x.1 = u
+    · have h2 : q.contains x.1 = false := by rw [h1]; simpa using hu
+      simp only [h1, beq_self_eq_true, Bool.true_or, if_true, List.length_cons]
+      rw [h1] at h2
+      simp only [h2, Bool.false_eq_true, if_false]
+      have := ih
+      simp only [List.contains_cons] at this
+      omega
+    · have h1' : (x.1 == u) = false := by simpa using h1
+      simp only [h1', Bool.false_or, Bool.false_eq_true, if_false]
+      have := ih
+      simp only [List.contains_cons] at this
+      split
+      · simp only [List.length_cons]; omega
+      · exact this
+
+/-- `pendingWork s` is the number of entries of the pending index whose market waits in the market queue (the queue
+    has no duplicates in reachable states) -/
+theorem pendingWork_eq_count {s : State} (hR : Reach s) :
+    pendingWork s = (s.pending.filter (fun x => s.mqueue.contains x.1)).length := by
+  unfold pendingWork
+  have hnd := hR.q.nodupM
+  generalize s.mqueue = q at hnd
+  induction q with
+  | nil =>
+    have : s.pending.filter (fun x => ([] : List Nat).contains x.1) = [] := by
+      rw [List.filter_eq_nil_iff]; intro x _; simp
+    rw [this]; rfl
+  | cons u q ih =>
+    rw [List.nodup_cons] at hnd
+    rw [wsum_cons, ih hnd.2, filter_contains_cons u q hnd.1]
+    rfl
 
 -- ---------------------------------------------------------------------------------------------
 -- one block
@@ -387,5 +437,32 @@ example :
 /-- the state of the known finding `c05_counterexample_halt` is NOT solvent (the seventh backing part has stake −3):
     the hypothesis of `c05_no_halt_partial` excludes it, as it must -/
 example : solventB (run kf05Init kf05Ops) = false := by decide +kernel
+
+-- ---------------------------------------------------------------------------------------------
+-- the "+ 1" is necessary
+
+/-- two markets without bets; the first has one participation; both are cancelled -/
+def c05cPre : List Op :=
+  [.marketAdd 0 c05bTk 1 50 5000 [11, 12] MS_ACTIVE, .marketAdd 0 c05bTk 2 50 5000 [21, 22, 23] MS_ACTIVE,
+   .deposit 1 c05bTk 1 500 0, .marketResolve c05bTk 1 150 MS_CANCELED [], .marketResolve c05bTk 2 150 MS_CANCELED []]
+
+/-- FINDING (the clean bound is false of the code as it is).  The bound in the form ⌈W/N⌉ + ⌈P/M⌉ end-blocks (at least
+    one) — W / P the pending bets / unpaid participations of everything queued, the form the `settles_within` monitor
+    of the harness uses — does NOT hold: with batch sizes 1, two cancelled markets without bets and a single
+    participation (W = 0, P = 1) that form gives 1 end-block, but after one successful end-block the book of the
+    second market is still RESOLVED and waiting in the order-book queue: BatchOrderBookSettlements stops as soon as
+    the budget is used up — by the participation of the first book — and does not look at the next book, although that
+    book has nothing to pay. It is settled by the second end-block, which is exactly `settleBoundAll` =
+    ⌊0/1⌋ + ⌊1/1⌋ + 1 = 2: the proved bound is attained. (The same happens in the bet queue: a market without pending
+    bets behind a market whose last bets used the budget up exactly waits one more block.) -/
+theorem c05_ceil_bound_counterexample :
+    let s := run (c05bInit 1) c05cPre
+    signedOk c05cPre = true ∧ s.params.betBatch = 1 ∧ s.params.obBatch = 1 ∧
+    s.mqueue = [1, 2] ∧ s.obqueue = [] ∧ pendingWork s = 0 ∧ partWork s + wsum (unpaidOf s) s.mqueue = 1 ∧
+    (step s .endBlock).2 = .ok ∧ (run s [.endBlock]).mqueue = [] ∧ (run s [.endBlock]).obqueue = [2] ∧
+    statusOf (run s [.endBlock]) 2 = some OB_RESOLVED ∧
+    settleBoundAll 1 1 s = 2 ∧ noHalt s [.endBlock, .endBlock] = true ∧
+    (run s [.endBlock, .endBlock]).obqueue = [] ∧ statusOf (run s [.endBlock, .endBlock]) 2 = some OB_SETTLED := by
+  decide +kernel
 
 end Sge.Core
